@@ -7,6 +7,7 @@ import numpy as np
 from scipy.special import ellipe
 
 from . import Circle, Shape2D
+from .utils import _own_scalar
 
 
 class Ellipse(Shape2D):
@@ -76,7 +77,7 @@ class Ellipse(Shape2D):
     @a.setter
     def a(self, value):
         if value > 0:
-            self._a = value
+            self._a = _own_scalar(value)
         else:
             raise ValueError("a must be greater than zero.")
 
@@ -88,7 +89,7 @@ class Ellipse(Shape2D):
     @b.setter
     def b(self, value):
         if value > 0:
-            self._b = value
+            self._b = _own_scalar(value)
         else:
             raise ValueError("b must be greater than zero.")
 
